@@ -1,7 +1,7 @@
 // ---- lint suppression (C13): what Diagnostics::into_updated must compute -----------------------------
 /// `Lint::code()` -- the lint's name as it is written after `--allow` / inside `allow(...)`.
 pub uninterp spec fn lint_code(l: Lint) -> Seq<char>;
-/// A list of identifiers names the lint: one of them is exactly `All` or exactly the lint's code.
+/// A list of identifiers names the lint: one of them is `All` or the lint's code (ASCII case ignored).
 pub open spec fn names_allow(ids: Seq<String>, l: Lint) -> bool {
     exists|i: int| 0 <= i < ids.len() && #[trigger] id_names(ids[i], l)
 }
@@ -15,7 +15,11 @@ pub proof fn lemma_names_refs(ids: Seq<String>, refs: Seq<&String>, l: Lint)
     if names_allow_refs(refs, l) { let i = choose|i: int| 0 <= i < refs.len() && #[trigger] id_names(*refs[i], l); assert(id_names(ids[i], l)); }
     if names_allow(ids, l) { let i = choose|i: int| 0 <= i < ids.len() && #[trigger] id_names(ids[i], l); assert(id_names(*refs[i], l)); }
 }
-pub open spec fn id_names(id: String, l: Lint) -> bool { id@ == "All"@ || id@ == lint_code(l) }
+pub open spec fn id_names(id: String, l: Lint) -> bool { ci_eq(id@, "All"@) || ci_eq(id@, lint_code(l)) }
+/// equality ignoring ASCII letter case (`str::eq_ignore_ascii_case`): the command line accepts lint
+/// names in any letter case, so that is how they have to be compared
+pub open spec fn ascii_lower(c: char) -> char { if 'A' <= c && c <= 'Z' { ((c as u8) + 32) as char } else { c } }
+pub open spec fn ci_eq(a: Seq<char>, b: Seq<char>) -> bool { a.len() == b.len() && forall|i: int| 0 <= i < a.len() ==> ascii_lower(#[trigger] a[i]) == ascii_lower(b[i]) }
 /// The `allow` attributes reachable from an attributable thing (`Attributable::all_attributes`: its
 /// own and, for an entity, those of every enclosing definition) name the lint. Uninterpreted: the
 /// attribute walk is dyn dispatch + downcasts (assumed in shims/diag.rs).
